@@ -43,7 +43,7 @@ LOOPS = ["@for $i from 9007199254740992 through 9007199254740994 { a { b: $i } }
 CONTEXTS = {
     "soup": (CORE, 4, 5, "", "", ["scss", "sass", "css"]),
     "value": (VALUE, 2, 3, "$x: 1;\na{b:", "}", ["scss", "css"]),
-    "value-small": (VALUE_SMALL, 4, 6, "a{b:", "}", ["scss"]),
+    "value-small": (VALUE_SMALL, 4, 5, "a{b:", "}", ["scss"]),
     "value-sass": (VALUE, 2, 3, "$x: 1\na\n  b: ", "\n", ["sass"]),
     "calc-args": (["1", "2px", "3em", ",", " ", "+", "(", ")"], 5, 6, "a{b:clamp(", ")}", ["scss"]),
     "calc-args2": (["1", "2px", "3em", "1%", ",", " ", "+", "-", "*", "/", "(", ")", "min(", "calc(", "$x"], 3, 4, "$x: 1;\na{b:max(", ")}", ["scss"]),
@@ -51,7 +51,7 @@ CONTEXTS = {
     "media-interp": (["#{$s}", "(", ")", "and", " ", ":", "screen", ",", "not"], 4, 5, "$s:\"日本\";\n@media ", "{a{b:c}}", ["scss"]),
     "selector": (SELECTOR, 2, 3, "$s:\"日本語日本語\";\n", "{a:b}", ["scss"]),
     "selector-fn": (SELECTOR, 2, 3, "$s:\"日本語日本語\";\na{b:selector-parse(\"", "\")}", ["scss"]),
-    "atrule": (ATRULE, 3, 4, "@", "", ["scss", "sass"]),
+    "atrule": (ATRULE, 3, 3, "@", "", ["scss", "sass"]),
     "comment-soup": (COMMENT, 5, 6, "", "", ["sass", "scss"]),
     "loops": (LOOPS, 2, 2, "", "", ["scss"]),
 }
@@ -151,6 +151,13 @@ def run(ctx):
     for bj in BYTES:
         for syn in ("scss", "sass", "css"):
             jobs.append(dict(bj, syntax=syn))
+            batchof.append(b)
+    # inputs that once crashed the compiler and lie beyond the quick tier's length bounds
+    for src in ("\\é:{a:b}", "\\é.{a:b}", "\\é|{a:b}", "a\\日:{b:c}", "\\é:hover,\\é{a:b}"):
+        for o in range(2):
+            j = {"src": src}
+            j.update(opts(o))
+            jobs.append(j)
             batchof.append(b)
     for src, files in IMPORT_BYTES:
         for o in range(2):
